@@ -276,12 +276,18 @@ def case_gen(draw, long_max):
         elems = draw(st.sampled_from([FLOATS] * len(FLOAT_KINDS) + FLOAT_KINDS))
         data = {'kind': 'short', 'xs': draw(st.lists(elems, min_size=draw(st.sampled_from([0, 1, 2, 3, 8])), max_size=12)),
                 'numpy': draw(st.integers(0, 3)) == 0}
+        if data['xs'] and draw(st.integers(0, 5)) == 0:
+            data['xs'][0] = 0        # the int 0 (the filler of an unused slot, a falsy running value) as the FIRST item of a key
     else:
         data = {'kind': 'long', 'n': draw(st.sampled_from([10, 100, 300, 1100, long_max])), 'off_m': draw(st.sampled_from([0.0, 1.0, -3.0, 7.25])),
                 'off_e': draw(st.integers(-6, 9)), 'scale_e': draw(st.integers(-13, 6)),
                 'shape': draw(st.sampled_from(['uniform', 'two-point', 'sorted', 'constant', 'alternating'])), 'seed': draw(st.integers(0, 10 ** 6))}
     mode = draw(st.sampled_from(['plain', 'store', 'grouped', 'windows']))
     case = {'data': data, 'op': draw(st.sampled_from(OPS)), 'km': draw(st.booleans()), 'mode': mode}
+    if case['op'] in ('sum', 'mean', 'min', 'max') and kind == 'short' and draw(st.integers(0, 7)) == 0:
+        h = draw(st.sampled_from([1e308, 1.7e308, 9e307]))
+        data['xs'] = [h if j % 2 == 0 else -h for j in range(draw(st.integers(2, 7)))]
+        data['numpy'] = False
     if case['op'] in ('min', 'max') and kind == 'short' and draw(st.integers(0, 2)) == 0:
         data['npint'] = draw(st.sampled_from(['uint8', 'int8', 'uint16', 'int64']))
     if mode == 'grouped':
